@@ -644,9 +644,12 @@ func c09RunRound(t *testing.T, rd *c09Round, guardedAltSvc bool) (out c09Outcome
 		case q.earlyClose:
 			buf := make([]byte, len(want)/3+1)
 			n, _ := io.ReadFull(resp.Body, buf)
-			resp.Body.Close()
 			body = buf[:n]
 			want = want[:n]
+			// Body.Close() is done below, AFTER the `done` event is recorded: closing makes the
+			// read loop close the connection and free its per-host slot at once (in its own
+			// goroutine), so a request on a replacement connection may reach the origin before
+			// this goroutine runs again.
 		case q.slowRead:
 			buf := make([]byte, len(want)/2)
 			n, _ := io.ReadFull(resp.Body, buf)
@@ -681,6 +684,9 @@ func c09RunRound(t *testing.T, rd *c09Round, guardedAltSvc bool) (out c09Outcome
 			partial = 1
 		}
 		rec.add(7, q.tag, echo, okN, partial)
+		if q.earlyClose {
+			resp.Body.Close()
+		}
 	}
 
 	// Alt-Svc warm-up, strictly sequential: one request learns the alternative, the pending
@@ -782,6 +788,25 @@ func c09RunRound(t *testing.T, rd *c09Round, guardedAltSvc bool) (out c09Outcome
 	for _, c := range rd.callers {
 		n += len(c)
 	}
+	var specs []string
+	for _, c := range rd.callers {
+		for _, q := range c {
+			m := "G"
+			if q.post {
+				m = "P"
+			}
+			x := "-"
+			if q.earlyClose {
+				x = "e"
+			} else if q.slowRead {
+				x = "s"
+			}
+			specs = append(specs, fmt.Sprintf("t%d:%d:%s:%s:%s", q.tag, q.target, m, q.plan.String(), x))
+		}
+	}
+	defer func() {
+		out.human += " reqs[tag:target:method:delay,size,chunked,pause,close,abort,altsvc:early|slow] " + strings.Join(specs, " ")
+	}()
 	out.human = fmt.Sprintf("%s round: %d callers / %d requests, MaxConnsPerHost=%d MaxIdleConnsPerHost=%d MaxIdleConns=%d DisableKeepAlives=%v idleClose=%v closer=%v cloner=%v dump=%v -> %d events, stats %v",
 		rd.kind, len(rd.callers), n, rd.maxConns, rd.maxIdleHost, rd.maxIdle, rd.disableKA, rd.idleClose, rd.closer, rd.cloner, rd.dump, len(evs), out.stat)
 	return out
